@@ -202,8 +202,10 @@ func (p *PostingsList) iterator(includeFreq, includeNorm, includeLocs bool,
 		return rv
 	}
 
-	// "general" encoding, check if empty
-	if p.postings == nil {
+	// "general" encoding, check if empty; a recycled list handed to a
+	// dictionary with no segment behind it (a field the segment lacks) keeps
+	// its cleared bitmap but has no bytes to read
+	if p.postings == nil || p.sb == nil {
 		return rv
 	}
 
